@@ -578,6 +578,9 @@ def check(argv):
     from contracts import llvm_cfg
 
     report.guarded("LLVM control-flow emitter contracts", llvm_cfg.run, report)
+    from contracts import c_header
+
+    report.guarded("C header macros", c_header.run, report)
     from contracts import llvm_memory
 
     report.guarded("LLVM allocator contracts", llvm_memory.run, report)
